@@ -201,6 +201,8 @@ pub enum Outcome {
     Abort(u8),
     /// completion without the status information / receipt number
     NoStatus,
+    /// success, with a further status information (without receipt number) ahead of the completion
+    OkExtraStatus,
 }
 
 /// The default (no-deviation) behaviour of the terminal for every command of DESIGN.md
@@ -324,10 +326,13 @@ pub fn default_script(t: &mut TermState, req: &ReqRec, outcome: &Outcome, interm
             match outcome {
                 Outcome::Abort(c) => s.push(r.abort(*c)),
                 Outcome::NoStatus => s.push(r.completion()),
-                Outcome::Ok => {
+                Outcome::Ok | Outcome::OkExtraStatus => {
                     let rc = t.free_receipt();
                     t.ledger.insert(rc);
                     s.push(r.status(&[("result_code", Val::Int(0)), ("amount", Val::Int(field("amount").unwrap_or(0))), ("receipt_no", Val::Int(rc as u64)), ("currency", Val::Int(field("currency").unwrap_or(978)))], "status"));
+                    if *outcome == Outcome::OkExtraStatus {
+                        s.push(r.status(&[("result_code", Val::Int(0)), ("trace_number", Val::Int(975))], "status-without-receipt"));
+                    }
                     s.push(r.completion());
                 }
             }
